@@ -17,7 +17,8 @@ DECIDED = ["R08a insert_edge fails without effect on a missing endpoint (DOM)",
            "R08d sign discipline of ids (TABLE)",
            "R08b (cont.) node_edges filters nothing but self-loops",
            "R08e a freed graph slot is fully reset",
-           "R08f from/to sibling functions of the graph module are mirror images (SIBLING over calls and field accesses)"]
+           "R08f from/to sibling functions of the graph module are mirror images (SIBLING over calls and field accesses)",
+           "R08g every removal releases its slot through free_index (MUST)"]
 UNDECIDED = ["adjacency-list unlinking and free-slot stack correctness over histories (pointer arithmetic; only the mirror "
              "agreement of the outgoing and the incoming variant is decided)",
              "counts matching the abstract graph (needs execution)"]
@@ -124,6 +125,33 @@ def mirror_rule(ctx, rule="R08f"):
                "`%s` and `%s` are not mirror images under from<->to: only in the first (renamed): %s; only in the second: %s" % (
                    name, twin, sorted(dict(efs - et).items()), sorted(dict(et - efs).items())), b.where)
     ctx.floor(rule, "from/to sibling pairs of the graph module", n, 14)
+
+
+def slot_release_rule(ctx, rule="R08g"):
+    """Every removed element returns its slot to the free list (free_index) - also the last slot of the graph.  The undo
+    commands of a removal (InsertNode / InsertEdge) carry no id: rollback re-creates the elements by taking slots from the
+    free list in reverse order of the removals, which restores the original ids only if every removal pushed its slot."""
+    fa = ctx.facts
+    for fn in ("remove_edge", "remove_node"):
+        b = ctx.anchor(rule, G + fn)
+        if not b:
+            continue
+        fr = common.call_blocks_reaching(fa, b, [G + "free_index"])
+        okb, errb, unk = cfg.ret_class_blocks(b)
+        targets = (okb + unk) or cfg.return_blocks(b)
+        # a success path that removes nothing (element not found) need not release anything: only paths that unlink
+        unlink = common.call_blocks_reaching(fa, b, [G + "remove_from_edge", G + "remove_to_edge", G + "remove_from_edges",
+                                                     G + "remove_to_edges", G + "set_node_count", G + "set_edge_count"])
+        starts = unlink or [0]
+        p = None
+        for u in starts:
+            p = p or cfg.find_path(b, [u], targets, avoid=fr, leave_start=True)
+        ok = bool(fr) and p is None
+        ctx.ob(rule, "%s:slot-released" % fn, ok,
+               "every removing path passes free_index" if ok else
+               "GraphImpl::%s can remove an element without pushing its slot onto the free list (%s): rollback re-creates "
+               "removed elements from the free list in reverse order and would hand out other ids" % (
+                   fn, cfg.path_str(b, p) if p else "free_index not called"), b.where)
 
 
 def run(ctx):
@@ -280,4 +308,5 @@ def r08d(ctx):
                    ("edge index = -(free index)" if want_neg else "node index = free index (positive)") if ok else
                    "%s builds its returned index with the wrong sign (negated: %s)" % (fn, neg), b.where)
     mirror_rule(ctx)
+    slot_release_rule(ctx)
     return 0
